@@ -123,7 +123,7 @@ func (s *nameSet) ok(name string) bool {
 	return true
 }
 
-var fatNameClasses = []string{"83upper", "83lower", "83mixed", "longstem", "longext", "subst", "spaces", "dots", "bmp", "stem6", "len255", "noext"}
+var fatNameClasses = []string{"83upper", "83lower", "83mixed", "longstem", "longext", "subst", "spaces", "dots", "bmp", "stem6", "len255", "noext", "upperlongext", "upperlongstem"}
 
 // genFATName draws a legal name of a labelled class that does not alias any
 // existing entry of the directory.
@@ -147,6 +147,10 @@ func genFATName(t *rapid.T, s *nameSet, counter int) (string, string) {
 			return base + "longfilename" + suffix + "." + ext
 		case "longext":
 			return base + suffix + ".html"
+		case "upperlongext": // a valid upper-case 8.3 stem, only the extension is too long: still needs a long name
+			return strings.ToUpper(base+suffix) + rapid.SampledFrom([]string{".HTML", ".JSONL", ".TARGZ"}).Draw(t, "upperExt")
+		case "upperlongstem":
+			return strings.ToUpper(base+"LONGSTEM"+suffix) + "." + strings.ToUpper(ext)
 		case "subst":
 			return base + "+" + suffix + "," + base + "." + ext
 		case "spaces":
@@ -294,6 +298,13 @@ func genFATHistory(t *rapid.T, o fatGenOpts) histCase {
 		}
 		return mk.Content{Seed: uint32(counter), Len: n, Style: rapid.SampledFrom([]int{0, 0, 2}).Draw(t, label+"Style")}
 	}
+	// split: the data of a write goes out in two Write calls on one handle (0 = one call)
+	split := func(ct mk.Content) int {
+		if ct.Len < 2 || rapid.IntRange(0, 2).Draw(t, "splitWrite") != 0 {
+			return 0
+		}
+		return rapid.SampledFrom([]int{1, ct.Len / 2, ct.Len - 1}).Draw(t, "splitAt")
+	}
 	spell := func(p string) string {
 		if rapid.IntRange(0, 5).Draw(t, "spell") == 0 {
 			return caseVariant(p)
@@ -301,6 +312,20 @@ func genFATHistory(t *rapid.T, o fatGenOpts) histCase {
 		return p
 	}
 	nops := rapid.IntRange(1, o.maxOps).Draw(t, "nops")
+	if c.Cfg.Kind == "fat32" && c.Cfg.BS == 512 && !o.noCycles && rapid.IntRange(0, 11).Draw(t, "highClusters") == 0 {
+		// a FAT32 volume with more than 65536 clusters whose first 33 MiB are taken by one file of zeros: everything
+		// created afterwards starts at a cluster number that needs the high word of the directory entry
+		c.Cfg.Size = 40<<20 + int64(rapid.IntRange(0, 15).Draw(t, "highOdd"))*512
+		big := mk.Content{Seed: 1, Len: 33<<20 + 700, Style: 1}
+		if n, _ := m.Create("BIG.BIN"); n != nil {
+			n.WriteAt(0, big.Bytes())
+		}
+		c.Ops = append(c.Ops, fsOp{K: "create", P: "BIG.BIN", D: big})
+		if nops > 5 {
+			nops = 5
+		}
+		o.noCycles = true // no fill / populate cycles on top of it: each step already re-reads 33 MiB
+	}
 	for i := 0; i < nops; i++ {
 		files := m.Files()
 		all := m.All()
@@ -350,7 +375,7 @@ func genFATHistory(t *rapid.T, o fatGenOpts) histCase {
 			if n != nil {
 				n.WriteAt(0, ct.Bytes())
 			}
-			c.Ops = append(c.Ops, fsOp{K: "create", P: p, D: ct})
+			c.Ops = append(c.Ops, fsOp{K: "create", P: p, D: ct, N: split(ct)})
 		case "write":
 			p := rapid.SampledFrom(files).Draw(t, "wfile")
 			n := m.Lookup(p)
@@ -370,13 +395,13 @@ func genFATHistory(t *rapid.T, o fatGenOpts) histCase {
 			}
 			ct := content("writeLen")
 			n.WriteAt(off, ct.Bytes())
-			c.Ops = append(c.Ops, fsOp{K: "write", P: spell(p), Off: off, D: ct})
+			c.Ops = append(c.Ops, fsOp{K: "write", P: spell(p), Off: off, D: ct, N: split(ct)})
 		case "append":
 			p := rapid.SampledFrom(files).Draw(t, "afile")
 			ct := content("appendLen")
 			n := m.Lookup(p)
 			n.WriteAt(int64(len(n.Data)), ct.Bytes())
-			c.Ops = append(c.Ops, fsOp{K: "append", P: spell(p), D: ct})
+			c.Ops = append(c.Ops, fsOp{K: "append", P: spell(p), D: ct, N: split(ct)})
 		case "trunc":
 			p := rapid.SampledFrom(files).Draw(t, "tfile")
 			ct := content("truncLen")
@@ -528,6 +553,7 @@ type fatRun struct {
 	grew            bool
 	step            int
 	opName          string
+	nextSplit       int // split point of the next openWrite's data (two Write calls on one handle)
 }
 
 func fsPath(p string) string { return "/" + p }
@@ -579,14 +605,25 @@ func (x *fatRun) openWrite(p string, flag int, seek int64, data []byte, readBack
 				return nil
 			}
 		}
-		if len(data) > 0 {
-			n, err := f.Write(data)
+		// the bytes may go out in two Write calls on the same handle with no Seek in between: the second one
+		// has to continue where the first one ended (also when the first one started beyond the end of the file)
+		pieces := [][]byte{data}
+		if sp := x.nextSplit; sp > 0 && sp < len(data) {
+			pieces = [][]byte{data[:sp], data[sp:]}
+			x.r.Class("write-in-two-calls")
+		}
+		x.nextSplit = 0
+		for _, piece := range pieces {
+			if len(piece) == 0 {
+				continue
+			}
+			n, err := f.Write(piece)
 			if err != nil {
 				outErr = fmt.Errorf("write: %w", err)
 				return nil
 			}
-			if n != len(data) {
-				outErr = fmt.Errorf("short write %d of %d", n, len(data))
+			if n != len(piece) {
+				outErr = fmt.Errorf("short write %d of %d", n, len(piece))
 				return nil
 			}
 		}
@@ -919,6 +956,7 @@ func (x *fatRun) exec(op fsOp) {
 			n.Data = nil
 			n.WriteAt(0, data)
 		}
+		x.nextSplit = op.N
 		err := x.openWrite(op.P, flag, seek, data, true)
 		if x.r.Failed() {
 			return
@@ -1268,6 +1306,21 @@ func (x *fatRun) popCycle(op fsOp) {
 				x.sawENOSPC = true
 				x.r.Class("refused:populate")
 				x.resync(p)
+				// the directory (or the volume) is full: a Mkdir there takes the other refusal path - it has
+				// reserved a cluster for the new directory before it finds that the parent cannot take the entry
+				sub := model.Join(op.P, fmt.Sprintf("SUBD%d", round))
+				if x.m.Lookup(sub) == nil {
+					merr, ok := x.call("Mkdir", func() error { return x.fs.Mkdir(fsPath(sub)) })
+					if !ok {
+						return
+					}
+					if merr == nil {
+						_ = x.m.Mkdir(sub)
+					} else {
+						x.r.Class("refused:mkdir-in-full-directory")
+						x.resync(sub)
+					}
+				}
 				break
 			}
 			_, _ = x.m.Create(p)
@@ -1302,6 +1355,15 @@ func (x *fatRun) popCycle(op fsOp) {
 			}
 			_ = x.m.Remove(p)
 			x.sawRelease = true
+		}
+		if sub := model.Join(op.P, fmt.Sprintf("SUBD%d", round)); x.m.Lookup(sub) != nil {
+			if err, ok := x.call("Remove", func() error { return x.fs.Remove(fsPath(sub)) }); !ok {
+				return
+			} else if err != nil {
+				x.fail("remove-failed", "Remove(%q) fails: %v", sub, err)
+				return
+			}
+			_ = x.m.Remove(sub)
 		}
 		x.compare(fmt.Sprintf("populate round %d after removing", round))
 		x.structural(fmt.Sprintf("populate round %d emptied", round))
